@@ -554,6 +554,72 @@ func checkTypedRobustness(c *Ctx, rel string) {
 			c.check(ok, rule, rel+":"+f[0]+"/returns-own-"+f[1], c.P.fnPos(fn), "", rel+": "+f[0]+" does not return its own "+f[1])
 		}
 	}
+	// BuildController(ctx, log, client) hands all three to the untyped constructor
+	if fn := c.mustFunc(rel, "BuildController"); fn != nil && len(fn.Params) == 3 {
+		ok := false
+		for _, pa := range pathsOf(c, fn) {
+			got := map[string]bool{}
+			for _, e := range pa.Effects {
+				if e.Kind == "call" && e.Fn != nil && fnName(e.Fn) == "NewController" && len(e.Args) == 3 {
+					for i, a := range e.Args {
+						if isParamT(a, fn.Params[i].Name()) {
+							got[fn.Params[i].Name()] = true
+						}
+					}
+				}
+				if e.Kind == "invoke" && len(e.Args) == 1 && e.Args[0].K == "param" {
+					// builder chain: Context(ctx), Log(log), Client(client)
+					want := map[string]int{"Context": 0, "Log": 1, "Client": 2}
+					if i, okm := want[e.Method]; okm && isParamT(e.Args[0], fn.Params[i].Name()) {
+						got[fn.Params[i].Name()] = true
+					}
+				}
+			}
+			if len(got) == 3 {
+				ok = true
+			}
+		}
+		c.check(ok, rule, rel+":BuildController/passes-ctx-log-client", c.P.fnPos(fn), "", rel+": BuildController does not hand its context, log and client to the untyped controller (a typed controller would not follow its context's cancellation, or use another client)")
+	}
+	if fn := c.mustFunc(rel, "NewController"); fn != nil && len(fn.Params) == 4 {
+		ok := false
+		for _, pa := range pathsOf(c, fn) {
+			for _, e := range pa.Effects {
+				if e.Kind == "call" && e.Fn != nil && e.Fn.Name() == "BuildController" && len(e.Args) == 3 {
+					cl, isNC := isCall(e.Args[2], rel+":NewClient")
+					ok = isParamT(e.Args[0], fn.Params[0].Name()) && isParamT(e.Args[1], fn.Params[1].Name()) && isNC && len(cl) == 2 && isParamT(cl[0], fn.Params[2].Name()) && isParamT(cl[1], fn.Params[3].Name())
+				}
+			}
+		}
+		c.check(ok, rule, rel+":NewController/BuildController(ctx,log,NewClient(cs,ns))", c.P.fnPos(fn), "", rel+": NewController is not BuildController(ctx, log, NewClient(cs, ns))")
+	}
+	// typed handler slots: each callback calls its own slot, guarded by that slot being set
+	for _, m := range [][3]string{{"baseHandler.OnCreate", "onCreate", ""}, {"baseHandler.OnUpdate", "onUpdate", ""}, {"baseHandler.OnDelete", "onDelete", ""}, {"handler.OnInitialize", "onInitialize", ""}, {"unitaryHandler.OnInitialize", "onInitialize", ""}} {
+		fn := c.mustFunc(rel, m[0])
+		if fn == nil {
+			continue
+		}
+		ok, calls := true, 0
+		for _, pa := range pathsOf(c, fn) {
+			for _, e := range pa.Effects {
+				if e.Kind == "dyncall" {
+					calls++
+					guarded := false
+					for _, l := range pa.Lits {
+						if x, isNil := isNilTest(l.T); isNil && x.IsField(m[1]) && !l.Val {
+							guarded = true
+						}
+					}
+					if !(e.Recv.IsField(m[1]) && len(e.Args) == 1 && e.Args[0].K == "param" && guarded) {
+						ok = false
+					}
+				} else if !e.IsPure() && e.Kind != "rundefers" {
+					ok = false
+				}
+			}
+		}
+		c.check(ok && calls == 1, rule, rel+":"+m[0]+"/calls-own-slot-if-set", c.P.fnPos(fn), "", rel+": "+m[0]+" does not call exactly its own "+m[1]+" slot, guarded by that slot being non-nil")
+	}
 	// no panicking type assertion to the object type anywhere in the instance
 	n := 0
 	for _, f := range c.P.SrcFuncs(rel) {
